@@ -31,6 +31,14 @@ CHECKS = {
    technique="snapshot-and-compare monitor over returned values across overwrite/delete/table-recycling churn/compaction/migration, scribble tests on returned slices and Put buffers, race detector with a reader goroutine over returned values",
    text="Every []byte/string returned by Get (embedded owner, embedded non-owner, cluster client; Byte and String accessors), GetPut and iterators is registered with a private copy taken at return time and re-compared after each follow-up: overwrite, delete, 12 rounds of churn with compaction to completion on 1 KiB tables (recycled and reused tables are observed white-box), and migration to a newly joined member. Returned slices and buffers passed to Put are overwritten by the harness and the stored value is re-read on every path and white-box on primary and backups. ReplicaCount 1 and 2 (with 2 the read is answered from the backup's decoded copy, so 1 is the case that exposes table memory). The -race binary runs the same script with a goroutine reading the registered values throughout; a race between that reader and olric code is a violation.",
    note="Sweeps happen at phase boundaries, so a value that changes and changes back in between is not seen; the race detector only sees accesses that actually overlap in the run."),
+ "C08": dict(category="exploration", design="DESIGN.md §3 C08",
+   technique="interval oracle over recorded lock histories + online critical-section counter; token-forgery scripts with white-box before/after comparison; time-judged clauses with margins and a scheduler-stall detector",
+   text="Scenario instances on fresh keys over embedded owner/non-owner, cluster client and raw RESP owner/non-owner paths: contention (4-9 competitors, untimed and long-timed locks; certain tenures [acquire.return, unlock.call] must not overlap, online counter must read 1), deadlines (lock-not-acquired no earlier than the deadline; a waiter gets the lock after the unlock and not before), tokens (stale, forged, wrong-length, empty, non-hex and prefix tokens for Unlock and Lease must fail and leave value and expiry unchanged, white-box), timed locks (timeout 400/800 ms with no/longer/shorter Lease taken through every path: a competitor acquires no earlier than the expiry and within 1 s after it).",
+   note="Time-based clauses use a 1 s margin (2 ms slack for 'no earlier than'); cases with a measured scheduling stall or an unstable membership fingerprint are inconclusive; hold times stay away from the expiry so that unlockKey's check-then-delete window is not what is measured."),
+ "C09": dict(category="exploration", design="DESIGN.md §3 C09",
+   technique="deadline oracle with margins: stored expiry cross-checked against [call+ttl, return+ttl], reads wholly before and observers wholly after the deadline, white-box eviction labelling, stall detector; expiry bookkeeping sequences",
+   text="Grid of option form {EX, PX, EXAT, PXAT, DMap default TTL, Expire, PExpire} x set path {EO,EN,CC,RO,RN,PL} x observer {Get, GetPut old value, Incr base, NX, XX, Expire} with rotating observer path and ttl 400/700/1200 ms, each on a fresh key, under eager (P=3, 8 eviction workers) and rare (P=271, 1 worker) eviction and ReplicaCount 1-2: the stored expiry must match the option, a read wholly before deadline-150 ms must see the value, the observer wholly after deadline+150 ms must behave as on an absent key whether or not eviction already removed it. Bookkeeping sequences per path: Incr/Decr keep the expiry (±5 ms), Expire replaces it and keeps the value, plain Put and GetPut clear it.",
+   note="A violation smaller than the 150 ms margin is invisible; stalled cases (scheduling delay > 50 ms) and unstable membership are inconclusive."),
 }
 
 NOT_BUILT_REASON = "check not built yet (work in progress in this session); not claimed until its monitor is silent on the unchanged tree"
